@@ -271,7 +271,7 @@ def _signal_case(case):
             if not (list(b[1][0]) == b[2].times and err <= 1e-11 * scale):
                 fails.append(_fs("eager-model", kind, seq, 0,
                                  "values %s != eager evaluation %s (times %s)" % (got.tolist(), exp.tolist(), b[2].times)))
-        masks = [case["mask"]] if case.get("mask") is not None else range(1, 2 ** len(seq))
+        masks = [case["mask"]] if case.get("mask") is not None else list(range(1, 2 ** len(seq)))
         for mask in masks:
             n += 1
             try:
@@ -314,7 +314,8 @@ def _fs(check, kind, seq, mask, what):
 
 
 # ---- ray tracers and paths -----------------------------------------------------------------------
-RAY_KINDS = ["spec_tracer", "basic_tracer", "uniform_tracer", "layered_tracer", "spec_path", "basic_path", "uniform_path"]
+RAY_KINDS = ["spec_tracer", "basic_tracer", "uniform_tracer", "layered_tracer", "spec_path", "basic_path", "uniform_path",
+             "layered_path"]
 
 P_A = (0.0, 0.0, -250.0)
 P_B = (400.0, 100.0, -100.0)
@@ -344,7 +345,19 @@ def _make_ray(kind):
         t = rt.UniformRayTracer(P_A, P_B, UniformIce(1.6, valid_range=(-800, 0), index_above=1.0, index_below=1.9))
         t.max_reflections = 1
         return t.solutions[1]
+    if kind == "layered_path":
+        return _layered_tracer().solutions[0]
     raise ValueError(kind)
+
+
+def _layered_tracer(a=P_A, b=P_B):
+    from pyrex.ice_model import UniformIce
+    from pyrex.custom.layered_ice import LayeredIce, LayeredRayTracer
+    ice = LayeredIce([UniformIce(1.5, valid_range=(-200, 0), index_above=1.0),
+                      UniformIce(1.7, valid_range=(-900, -200), index_below=None)])
+    t = LayeredRayTracer(a, b, ice)
+    t.max_reflections = 1
+    return t
 
 
 def _ray_ops(kind):
@@ -356,6 +369,8 @@ def _ray_ops(kind):
             ops += ["max_reflections=1", "max_reflections=2"]
         if kind == "uniform_tracer":
             ops += ["ice=uniform2"]
+    elif kind == "layered_path":
+        ops = ["from=C", "to=D", "to+=dx", "paths=other", "paths=elsewhere"]
     else:
         ops += ["theta0*0.9", "direct=flip"]
         if kind in ("spec_path", "basic_path"):
@@ -386,13 +401,19 @@ def _apply_ray(obj, op):
         obj.theta0 = obj.theta0 * 0.9
     elif op == "direct=flip":
         obj.direct = not obj.direct
+    elif op == "paths=other":
+        obj.paths = _layered_tracer().solutions[1].paths
+    elif op == "paths=elsewhere":
+        obj.paths = _layered_tracer(P_C, P_D).solutions[0].paths
     else:
         raise ValueError(op)
 
 
 def _obs_path(p):
     out = []
-    for name in ("tof", "path_length", "emitted_direction", "received_direction"):
+    for name in ("tof", "path_length", "emitted_direction", "received_direction", "n0", "rho", "phi"):
+        if not hasattr(type(p), name):
+            continue
         try:
             v = getattr(p, name)
             out.append(np.array(v, dtype=float).copy())
@@ -429,7 +450,41 @@ def _run_ray(kind, seq, mask):
         if mask >> k & 1:
             reads.append((k, _obs_ray(kind, obj)))
         _apply_ray(obj, op)
-    return reads, _obs_ray(kind, obj)
+    return reads, _obs_ray(kind, obj), obj
+
+
+class _Parent:
+    """Stand-in for a parent tracer: a path constructor only reads these defining attributes from it."""
+
+    def __init__(self, obj):
+        self.from_point = np.array(obj.from_point, dtype=float).copy()
+        self.to_point = np.array(obj.to_point, dtype=float).copy()
+        self.ice = obj.ice
+        if hasattr(obj, "dz"):
+            self.dz = obj.dz
+
+
+def _fresh_ray(kind, obj):
+    """A newly constructed object with the same defining attributes as `obj` (the property's reference)."""
+    cls = type(obj)
+    if kind.endswith("tracer"):
+        if hasattr(obj, "dz"):
+            new = cls(np.array(obj.from_point, dtype=float).copy(), np.array(obj.to_point, dtype=float).copy(),
+                      obj.ice, dz=obj.dz)
+        else:
+            new = cls(np.array(obj.from_point, dtype=float).copy(), np.array(obj.to_point, dtype=float).copy(), obj.ice)
+        if "max_reflections" in vars(obj):
+            new.max_reflections = obj.max_reflections
+        return new
+    if kind == "layered_path":
+        return cls(_Parent(obj), obj.paths)
+    if kind == "uniform_path":
+        new = cls(_Parent(obj), obj.theta0, obj._reflections)
+    else:
+        new = cls(_Parent(obj), obj.theta0, obj.direct)
+    if bool(new.direct) != bool(obj.direct):
+        new.direct = obj.direct          # assigned before anything has been read from `new`
+    return new
 
 
 def _ray_case(case):
@@ -451,11 +506,18 @@ def _ray_case(case):
     for seq in seqs:
         b = base(seq)
         n += 1
-        masks = [case["mask"]] if case.get("mask") is not None else range(1, 2 ** len(seq))
+        masks = [case["mask"]] if case.get("mask") is not None else list(range(1, 2 ** len(seq)))
         for mask in masks:
             n += 1
-            reads, final = _run_ray(kind, seq, mask)
+            reads, final, obj = _run_ray(kind, seq, mask)
             nontriv.append("%s|%s|%d" % (kind, ",".join(seq), mask))
+            if mask == masks[-1]:
+                n += 1
+                fresh = _obs_ray(kind, _fresh_ray(kind, obj))
+                if not _same(final, fresh, 1e-12):
+                    fails.append(_fs("fresh", kind, seq, mask,
+                                     "derived quantities differ from those of a newly constructed object with the same "
+                                     "defining attributes: %s vs %s" % (_brief(final), _brief(fresh))))
             if not _same(final, b, 1e-12):
                 fails.append(_fs("stale", kind, seq, mask,
                                  "derived quantities after reads differ from a fresh object's: %s vs %s"
